@@ -9,13 +9,14 @@ from core import Facts
 from engine import Ctx
 ctx = Ctx(Facts(sys.argv[1])); ctx.verif = VERIF
 skip = {"W-witness", "X-contract", "F-diff"}
+if os.environ.get("VIEW"):
+    from engine import view_ctx
+    ctx = view_ctx(ctx, os.environ["VIEW"])
+    print("view %s: inlined %s" % (os.environ["VIEW"], sorted(set("%s <- %s" % (a.split("::")[-1], b.split("::")[-1]) for a, b in ctx.inlined))))
 for rid in (sys.argv[2:] or [r for r in registry.RULES if r not in skip]):
-    mod, fn = registry.RULES[rid].split(".")
-    try:
-        R = getattr(importlib.import_module(mod), fn)(ctx)
-    except Exception:
-        print("== %s CRASH\n%s" % (rid, traceback.format_exc()[-600:])); continue
-    if R.violations or len(sys.argv) > 2:
-        print("== %s: %d instances, %d violations" % (rid, len(R.instances), len(R.violations)))
+    from engine import run_rule
+    R = run_rule(ctx, rid, None, views=not os.environ.get("NOVIEWS"))
+    if R.violations or len(sys.argv) > 2 or getattr(R, "view", None):
+        print("== %s: %d instances, %d violations%s" % (rid, len(R.instances), len(R.violations), " [view %s]" % R.view if getattr(R, "view", None) else ""))
         for v in R.violations:
             print("   %s @ %s\n        %s" % (v.key, v.where, v.why[:400]))
